@@ -281,6 +281,61 @@ def key_from_final_flags_rule(ctx, mpq, pid):
                     ctx.ok(R_kf, {"call_line": t["ln"], "fix_key_sets_before": len([1 for b_, _ in sets if cfg.dominates(b_, bb) or b_ == bb])})
 
 
+def cipher_block_extent_rule(ctx, mpq, pid):
+    """(shared by C01 and C02) what is one cipher block is a matter of layout alone: a single-unit file is one block whatever its
+    size, a sectored file is one block per sector (key + index).  Where a reader chooses between the two, the choice reads the
+    SINGLE_UNIT flag and nothing else"""
+    R = ctx.rule("%s.cipher-block-extent-follows-the-single-unit-flag" % pid, "every reader-side `if` that decrypts the whole buffer in one arm and per sector (key + i) in the other is decided by the single-unit flag alone; a bool parameter in that role is fed `is_single_unit()` by every caller", floor=1)
+    byp = {f.path: f for f in mpq.fn_list if f.hir and f.kind != "Closure"}
+    n_found = 0
+    for f in mpq.fn_list:
+        if not f.hir or f.kind == "Closure" or "::tests::" in f.path or not re.search(r"::(archive|modification)::", f.path):
+            continue
+        for n in hirq.find(f.hir["body"], "if"):
+            if n.get("else") is None:
+                continue
+            def whole(b):
+                return any(c_.get("k") == "call" and re.search(r"decrypt_file_data$|decrypt_block$", c_.get("fn") or "") for c_ in hirq.walk(b)) and not any(x.get("k") == "for" for x in hirq.walk(b))
+            def per_sector(b):
+                return any(x.get("k") == "for" and re.search(r"chunks(_mut|_exact_mut)?\(", hirq.render(x["iter"])) and any(c_.get("k") == "call" and re.search(r"decrypt_file_data$|decrypt_block$", c_.get("fn") or "") for c_ in hirq.walk(x["body"])) for x in hirq.walk(b))
+            if not ((whole(n["then"]) and per_sector(n["else"])) or (whole(n["else"]) and per_sector(n["then"]))):
+                continue
+            n_found += 1
+            ctx.saw_fn(f)
+            c = hirq.strip(n["c"])
+            while c.get("k") == "un" and c.get("op") == "Not":
+                c = hirq.strip(c["e"])
+            where = "%s:%d" % (f.file, n.get("ln") or 0)
+            key = "%s|cipher-extent" % f.path.split("::")[-1]
+            pn = [b for p_ in f.hir["params"] for b in hirq.pat_binds(p_)]
+            if c.get("k") == "mcall" and c["m"] == "is_single_unit":
+                ctx.ok(R, {"fn": f.path.split("::")[-1], "decided_by": "is_single_unit()"})
+            elif c.get("k") == "path" and (c.get("res") or {}).get("local") in pn:
+                # a flag handed in: every caller passes is_single_unit()
+                ix = pn.index(c["res"]["local"])
+                badc = []
+                ncall = 0
+                for g in mpq.fn_list:
+                    if not g.hir or "::tests::" in g.path:
+                        continue
+                    for cl in hirq.calls(g.hir["body"]):
+                        if cl.get("fn") == f.path and len(cl.get("args") or []) > ix - (1 if pn and pn[0] == "self" else 0):
+                            ncall += 1
+                            a = hirq.strip(cl["args"][ix - (1 if pn and pn[0] == "self" else 0)])
+                            vals = [a] + [hirq.strip(v) for v in hirq.value_leaves(g.hir["body"], a) if v is not None]
+                            if not any(v.get("k") == "mcall" and v["m"] == "is_single_unit" for v in vals):
+                                badc.append("%s:%s passes `%s`" % (g.path.split("::")[-1], cl.get("ln"), hirq.render(a)[:40]))
+                if badc or not ncall:
+                    ctx.bad(R, key + "|caller", where, "the layout flag `%s` is not the single-unit flag at every call: %s" % (c["res"]["local"], "; ".join(badc) or "no caller found"), "a file is decrypted with the other layout's block extent: everything after the first sector (or the whole file) comes out as garbage")
+                else:
+                    ctx.ok(R, {"fn": f.path.split("::")[-1], "decided_by": "parameter `%s` = is_single_unit() at %d call sites" % (c["res"]["local"], ncall)})
+            else:
+                ctx.bad(R, key, where, "the choice between one cipher block and one per sector is decided by `%s`" % hirq.render(n["c"])[:80],
+                        "the format makes a single-unit file one cipher block whatever its size (and a sectored file one block per sector): files another writer stored as large encrypted single units — or small sectored ones — decrypt to garbage after the first sector")
+    if n_found == 0:
+        ctx.bad(R, "cipher-extent|none", "-", "no whole-vs-per-sector decryption choice found on the read path", "shape changed")
+
+
 def het_bet_writer_matches_reader_rule(ctx, mpq, pid):
     fns = mpq.fns
     M = "wow_mpq::"
@@ -481,6 +536,11 @@ def run(ctx):
 
     key_from_final_flags_rule(ctx, mpq, "C01")
     het_bet_writer_matches_reader_rule(ctx, mpq, "C01")
+    cipher_block_extent_rule(ctx, mpq, "C01")
+    from .c06 import version_gate_rule
+    version_gate_rule(ctx, mpq, "C01", r"::builder::")
+    from .c03 import never_expands_rule
+    never_expands_rule(ctx, mpq, "C01")
     crc_flag_implies_checksum_rule(ctx, mpq, "C01")
 
     # the codecs are part of the build -> open round trip: a block the sparse decoder over-fills is a file that does not read back
